@@ -543,6 +543,15 @@ func init() {
 			}
 		}
 	}
+	// --- time.NewTimer / time.NewTicker: never nil ---------------------------------------------------------------
+	for _, n := range []string{"time.NewTimer", "time.NewTicker"} {
+		externalModels[n] = func(fr *Frame, callee *ssa.Function, args []Val, resT types.Type, st *State, reach string, pos token.Pos) Val {
+			c := fr.c
+			r := fr.havocVal(resT, "timer")
+			c.smt.assume(not(eq(c.termOf(r), "0")), "time.NewTimer / NewTicker return a timer")
+			return r
+		}
+	}
 	// --- regexp: matching is an uninterpreted pure function of (compiled regexp, string) --------------------------
 	externalModels["regexp.MustCompile"] = func(fr *Frame, callee *ssa.Function, args []Val, resT types.Type, st *State, reach string, pos token.Pos) Val {
 		c := fr.c
